@@ -52,6 +52,8 @@ def formulas(tier):
     out += ["y ~ f/g", "y ~ f/x", "y ~ g/f/x", "y ~ f:(g + x)", "y ~ (f + g)**2", "y ~ 0 + (f + g)**2", "y ~ f*g*x", "y ~ (f + g):x", "y ~ x/f"]
     # categorical / subset responses
     out += ["f ~ x", "g ~ x + f", "g[t] ~ x", "f['a'] ~ g"]
+    # a call that yields several numeric columns, before and after a factor, alone and on the effect side
+    out += ["y ~ poly(x, 2, raw=True)", "y ~ poly(x, 2, raw=True):g", "y ~ 0 + poly(x, 2, raw=True):f", "y ~ g:poly(x, 2, raw=True)", "y ~ (0 + poly(x, 2, raw=True):f|g)", "y ~ x + (poly(x, 2, raw=True)|g)", "y ~ poly(x, 3, raw=True):z"]
     # numeric ids with many digits (ints and floats) as levels and as groups
     out += ["y ~ C(kb)", "y ~ 0 + x:C(kb)", "y ~ (1|kb)", "y ~ C(kf)", "y ~ (x|kf)", "y ~ f:C(kf)"]
     return out
